@@ -192,6 +192,40 @@ text without line breaks and valid UTF-8, trailer without `Prev`/`Encrypt`, trai
 reads back): the reader finds `%PDF-` at offset 0, reads header and binary mark back, finds
 `startxref`, decodes the table, leaves the `Prev` loop at once and runs its object pass on
 exactly the recorded table — every entry of which points at its object's `n g obj` header. -/
+theorem load_front_of_save_tableN (arr : List Block → List Block) (d : SDoc) (out : Bytes) (d' : SDoc) (tr' : Dict)
+    (hk : d.xrefKind = .table) (h : saveFrom [] d = some (out, d')) (hlen : out.length < 4294967296)
+    (hmax : d.maxId + 1 ≤ 4294967295) (hg : GensOk d)
+    (hD : DictReadsBackN d'.trailer tr' (STARTXREF_KW ++ natDigits (bodyOf [] d).length ++ EOF_KW))
+    (hsz : tr'.get SIZE = some (.int ((d.maxId + 1 : Nat) : Int)))
+    (hv1 : ∀ b ∈ d.version, notEol b = true) (hv2 : validUtf8 d.version = true)
+    (hprev : tr'.get PREV = none) (henc : tr'.has ENCRYPT = false) :
+    ∃ table,
+      (∀ n, table.get n = if 1 ≤ n ∧ n < d.maxId + 1 then normalOf (xmapOf [] d) n else none) ∧
+      (∀ n off g, table.get n = some (.normal off g) → HeaderAt out off n g) ∧
+      (table.map (·.1)).Nodup ∧
+      loadDocWith arr out
+        = objectPass arr out d.version d.binaryMark table tr' (bodyOf [] d).length := by
+  obtain ⟨xs, table, hxs, hle, hxt, hget, hhdr, hnodup⟩ := load_xref_of_save_tableN [] d out d' tr' hk h hlen hmax hg hD hsz
+  have hxs' : xs = (bodyOf [] d).length := by
+    have := startxref_found [] d out d' h hlen
+    rw [hxs] at this; injection this
+  subst hxs'
+  obtain ⟨R, hR⟩ := saveFrom_header d out d' h
+  refine ⟨table, hget, hhdr, hnodup, ?_⟩
+  apply load_front arr out d.version d.binaryMark R hR hv1 hv2 (saveFrom_mark [] d out d' h) _ hxs hle
+    table (d.maxId + 1) tr' hxt
+  · exact hprev
+  · have : table.maxId ≤ d.maxId := by
+      apply XTable_maxId_le
+      intro p hp
+      have h1 := XTable_mem_get table p.1 p.2 hp
+      rw [hget p.1] at h1
+      split at h1
+      · omega
+      · simp at h1
+    simp only [U32]; omega
+  · exact henc
+
 theorem load_front_of_save_table (arr : List Block → List Block) (d : SDoc) (out : Bytes) (d' : SDoc)
     (hk : d.xrefKind = .table) (h : saveFrom [] d = some (out, d')) (hlen : out.length < 4294967296)
     (hmax : d.maxId + 1 ≤ 4294967295) (hg : GensOk d)
@@ -204,29 +238,13 @@ theorem load_front_of_save_table (arr : List Block → List Block) (d : SDoc) (o
       (table.map (·.1)).Nodup ∧
       loadDocWith arr out
         = objectPass arr out d.version d.binaryMark table d'.trailer (bodyOf [] d).length := by
-  obtain ⟨xs, table, hxs, hle, hxt, hget, hhdr, hnodup⟩ := load_xref_of_save_table [] d out d' hk h hlen hmax hg hD
-  have hxs' : xs = (bodyOf [] d).length := by
-    have := startxref_found [] d out d' h hlen
-    rw [hxs] at this; injection this
-  subst hxs'
-  obtain ⟨R, hR⟩ := saveFrom_header d out d' h
   obtain ⟨_, htr⟩ := saveFrom_table_eq [] d out d' hk h
   have k1 : ¬ SIZE = PREV := by decide
   have k2 : ¬ SIZE = ENCRYPT := by decide
-  refine ⟨table, hget, hhdr, hnodup, ?_⟩
-  apply load_front arr out d.version d.binaryMark R hR hv1 hv2 (saveFrom_mark [] d out d' h) _ hxs hle
-    table (d.maxId + 1) d'.trailer hxt
+  apply load_front_of_save_tableN arr d out d' d'.trailer hk h hlen hmax hg hD ?_ hv1 hv2
   · rw [htr, Dict_get_set]; simp only [k1, if_false]; exact hprev
-  · have : table.maxId ≤ d.maxId := by
-      apply XTable_maxId_le
-      intro p hp
-      have h1 := XTable_mem_get table p.1 p.2 hp
-      rw [hget p.1] at h1
-      split at h1
-      · omega
-      · simp at h1
-    simp only [U32]; omega
   · rw [Dict_has_eq, htr, Dict_get_set]; simp only [k2, if_false]
     rw [← Dict_has_eq]; exact henc
+  · rw [htr, Dict.get_set_same]; simp
 
 end Lopdf.FileRT
